@@ -4,9 +4,10 @@ import json, os, glob
 V = os.path.dirname(os.path.dirname(os.path.abspath(__file__)))
 props = [json.loads(l)["id"] for l in open(os.path.join(V, "properties.jsonl"))]
 checks, na = [], []
+ready = set(open(os.path.join(V, 'harness', 'meta', 'READY')).read().split())
 for pid in props:
     mp = os.path.join(V, "harness", "meta", pid + ".json")
-    if os.path.exists(mp):
+    if os.path.exists(mp) and pid in ready:
         m = json.load(open(mp))
         checks.append({
             "property_id": pid,
